@@ -19,7 +19,10 @@ def hex_of(ip, b):
         else:
             hi, lo = e / 16, e % 16
             items += [z3.simplify(z3.If(hi < 10, hi + 48, hi + 87)), z3.simplify(z3.If(lo < 10, lo + 48, lo + 87))]
-    return ops._mk_like('', items=items)
+    r = ops._mk_like('', items=items)
+    if isinstance(r, SStr):
+        r.hex_src = sb          # the bytes this lower-case hex string denotes (canonical argument for uninterpreted functions)
+    return r
 
 
 def _hexval(ctx, c):
@@ -37,6 +40,8 @@ def _hexval(ctx, c):
 
 def fromhex(ip, args, kwargs):
     s = args[0]
+    if isinstance(s, (bytes, SBytes, int, SInt)) or s is None:
+        pyraise(TypeError, 'fromhex() argument must be str')
     if isinstance(s, str):
         try:
             return bytes.fromhex(s)
